@@ -25,7 +25,7 @@ RULE = ("kinds: direct (random screen of single-sample plates built with the rea
         "batchie.cli.select_next_plate.main run in-process on a saved screen and 1-2 saved score chunks with --policy KPerSamplePlatePolicy "
         "--policy-param k=<k> --batch-plate-id <ids...>, the class found by the command's own introspection; what the policy object was handed "
         "and its k are observed by wrapping the class method; the pick is read from --output; the screen is revealed and re-saved between calls "
-        "in two thirds of them).")
+        "in two thirds of them); a few select histories in which no allowed plate has a score (correspondence only: the model's Err 2).")
 THEOREMS = {
     "C16_model_is_source": "the hand-written model filter_eligible equals, for all inputs, the Gallina translation of the whole method filter_eligible_plates regenerated from /repo's current source on this run (Generated/SrcPolicy.v)",
     "C16_model_is_source_select_next_plate": "the Gallina translation (C16 vocabulary) of the whole function scoring/main.py select_next_plate regenerated from /repo on this run (Generated/SrcScoringPolicy.v), called with KPerSamplePlatePolicy(k), equals for all inputs the model select_next (hence its arguments to the policy are select_args); the code returns the Plate screen.get_plate(chosen id) after reading its name, the model the eligible ids and the chosen id",
@@ -202,6 +202,8 @@ def gen(rng, tier):
                 yield dict(kind="select", k=k, plates=pl, observed=observed, choices=choices[:stop], sseed=rng.randrange(1 << 30), extreme=True)
             # the screen evolves within the batch: the chosen plate is revealed before the next call (always = the retrospective
             # pipeline; or at random steps); some plates arrive half observed
+            if i % 40 == 3:
+                yield dict(kind="select", k=k, plates=pl, observed=observed, choices=choices[:stop], sseed=rng.randrange(1 << 30), noscore=True)
             if i % 4 == 1:
                 how = rng.choice(["all", "all", "random"])
                 flags = [True if how == "all" else rng.random() < 0.5 for _ in choices[:stop]]
@@ -408,13 +410,23 @@ def run(desc):
                 for i in el:
                     sc[i] = srng.choice([float("nan"), float("inf"), float("nan"), 1.7e308])
                 target = None
+            if desc.get("noscore") and el:
+                # no allowed plate has a score (a score chunk left out): outside the statement, the model answers Err 2 (argmin of nothing)
+                scored = [i for i in scored if i not in el]
+                target = None
             tables.append([[i, sc[i]] for i in scored])
             if not cli:
                 holder = ChunkedScoresHolder(size=len(scored))
                 for i in scored:
                     holder.add_score(i, float(sc[i]))
                 rec.seen = rec.result = None
-                got = select_next_plate(scores=holder, screen=screen, policy=rec, batch_plate_ids=list(batch_ids), rng=rng_stub)
+                if desc.get("noscore"):
+                    got = impl_call(lambda: select_next_plate(scores=holder, screen=screen, policy=rec, batch_plate_ids=list(batch_ids), rng=rng_stub))
+                    if isinstance(got, ImplError):
+                        out = got
+                        break
+                else:
+                    got = select_next_plate(scores=holder, screen=screen, policy=rec, batch_plate_ids=list(batch_ids), rng=rng_stub)
                 got_id = None if got is None else int(got.plate_id)
                 used = rec
             else:
@@ -447,7 +459,12 @@ def run(desc):
 
                 with mock.patch.object(sys, "argv", argv), mock.patch("batchie.log_config.configure_logging", lambda *a, **kw: None), \
                         mock.patch.object(KPerSamplePlatePolicy, "filter_eligible_plates", spy):
-                    cli_mod.main()
+                    try:
+                        cli_mod.main()
+                    except (Exception, SystemExit) as e:      # single-sample plates, a declared policy, valid ids: nothing to refuse
+                        pred = pred or "the select_next_plate command failed on batch ids %r with k=%d: %s: %s" % (batch_ids, k, type(e).__name__, e)
+                        out.append(["raised", type(e).__name__])
+                        break
                 txt = open(os.path.join(tmp, "out.txt")).read().strip()
                 got_id = None if txt == "-1" else int(txt)
                 used = seen_box.get("policy")
@@ -489,7 +506,9 @@ def run(desc):
     feats = _hist_features(k, [pl[i] for i in range(len(pl)) if not observed[i]], kind, inprog_flags, stopped_early)
     if any(observed):
         feats.append("observed-present")
-    if any(flags[:max(len(out) - 1, 0)]):
+    if desc.get("noscore"):
+        feats.append("no-allowed-plate-scored")
+    if not isinstance(out, ImplError) and any(flags[:max(len(out) - 1, 0)]):
         feats.append("pick-revealed-before-next-call")
     if partial and any(partial):
         feats.append("partially-observed-plate")
